@@ -15,14 +15,15 @@ VARS = {
     "lookalike": [0, "0", 1, "1", "S"],
     "eqprint": ["S", 1, True, 0, False],                       # equal and hash-equal values that print differently
     "spaced": ["S", "A", "B", "C"],
-    "dollar": ["S", "A", "B", "C"],                            # a terminal called "$" (the LL(1) end marker's text)                            # terminals whose concatenated texts coincide                        # different values that print alike
+    "dollar": ["S", "A", "B", "C"],
+    "epsvar": ["s", "epsilon", "$", "np", "eps"],             # lower-case variables spelled like the empty word                            # a terminal called "$" (the LL(1) end marker's text)                            # terminals whose concatenated texts coincide                        # different values that print alike
     "freshnames": ["S", "#STARTCLOS#", "#STARTCONC#", "#STARTPOSCLOS#", "#VARPOSCLOS#"],
     "emptyname": ["#EMPTY", "S", "A", "#EMPTY#SUBS#0", "B"],   # the placeholder name substitute() gives a start-less operand         # variables that are neither lower- nor upper-case initial
 }
 TERMS = {
     "str": ["a", "b", "c", "d", "e"], "int": ["a", "b", "c"], "clash": ["a", "b", "c"],
     "reserved": ["a", "#0UNION#", "#1CONC#"], "lower": ["a", "b", "Cap"], "lowerclash": ["n", "b", "Cap"], "termlike": ["a", "b", "c"],
-    "lookalike": [1, "1", "a"], "eqprint": ["a", "b", "c"], "spaced": ["a", "b", "a b", "b a"], "dollar": ["$", "a", "b"], "freshnames": ["a", "#1CLOS#", "#1POSCLOS#"],
+    "lookalike": [1, "1", "a"], "eqprint": ["a", "b", "c"], "spaced": ["a", "b", "a b", "b a"], "dollar": ["$", "a", "b"], "epsvar": ["a", "b", "Cap"], "freshnames": ["a", "#1CLOS#", "#1POSCLOS#"],
     "odd": ["a", "Éb", "2"], "emptyname": ["a", "b", "c"], "cnfnames": ["a", "b", "c"],
 }
 VCS = ["str", "str", "str", "int", "clash", "reserved", "lower", "termlike", "inject", "inject", "lookalike", "freshnames", "spaced", "eqprint"]
